@@ -370,7 +370,7 @@ func TestC18Model(t *testing.T) {
 		}
 		var pool [][]byte
 		var hist []string
-		clock := 1
+		clock := rapid.SampledFrom([]int{1, 1, 0}).Draw(t, "clockStart") // 0: the first entries are created at the zero time.Time
 		val := 0
 		check := func(op c18op) {
 			hist = append(hist, op.String())
